@@ -271,6 +271,27 @@ def main():
         c.violation("implementation violates C11: " + (check_trace(small, o) or bad),
                     "# C11 replay: bin/check C11 --replay <this file>\n" + "\n".join(small) + "\n")
     elif first_diff is not None:
+        # search: the layout diverged from the model; look for an input on which the property itself fails.
+        # insert(vector) of n keys (many duplicates), remove / update one handle, drain: every position of many heaps.
+        found = None
+        for rnd in range(40):
+            lines_s = []
+            for n in range(3, 17):
+                for rep in range(12):
+                    keys = [c.rng.randint(0, c.rng.choice([3, 8, 30])) for _ in range(n)]
+                    for victim in range(n):
+                        for cm in (0, 2):
+                            lines_s += ["N %d" % cm, "L %d %s" % (n, " ".join("%d %d" % (i, k) for i, k in enumerate(keys))),
+                                        ("R %d" % victim) if rep % 3 else ("U %d %d" % (victim, c.rng.randint(0, 30))), "E"]
+            outs_s, _, _ = impl_outs_for(drv, lines_s)
+            for sl, so in split_scripts(lines_s, outs_s):
+                bad = check_trace(sl, so)
+                if bad:
+                    found = (sl, bad); break
+            if found: break
+        if found:
+            c.violation("implementation violates C11: " + found[1], "# C11 replay: bin/check C11 --replay <this file>\n" + "\n".join(found[0]) + "\n")
+            c.finish()
         ls, mo, io = first_diff
         mp2 = ModelPipe(model)
         def fails(cand):
